@@ -448,7 +448,12 @@ template <typename D> struct Prog {
   void step_assign() { size_t a = pick(), b = other(a); std::string desc = "#" + std::to_string(b) + " = #" + std::to_string(a); c.log << "  " << desc << "\n"; c.tag(nm + " assign");
     D& r = (at(b) = at(a)); c.check(id("value.assign.returns_self"), &r == &at(b), "operator= does not return *this"); transfer(b, a); settle("assign", desc); }
   void step_swap() { size_t a = pick(), b = other(a); int how = (int) t.range(0, 2); std::string desc = std::string(how == 0 ? "m_swap" : how == 1 ? "swap" : "std::swap") + "(#" + std::to_string(a) + ", #" + std::to_string(b) + ")"; c.log << "  " << desc << "\n"; c.tag(nm + " swap");
+    // behavioural side of "swap exchanges the values": each object must answer like a copy of the other one taken before the swap
+    // (the models are built from the components; a lazy flag that is not exchanged - e.g. the `reduced' flag of a product - only shows here)
+    const bool behave = K<D>::prod && t.chance(60); std::unique_ptr<D> ca, cb; if (behave) { ca.reset(new D(at(a))); cb.reset(new D(at(b))); }
     if (how == 0) at(a).m_swap(at(b)); else if (how == 1) { using std::swap; swap(at(a), at(b)); } else std::swap(at(a), at(b));
+    if (behave) { bool ea = at(a).is_empty(), eb = at(b).is_empty(), eca = ca->is_empty(), ecb = cb->is_empty();
+      c.check(nm + ".value.swap.behaviour", ea == ecb && eb == eca, [&] { return desc + ": after the swap is_empty() answers " + (ea ? "1" : "0") + "/" + (eb ? "1" : "0") + " but copies of the exchanged values answer " + (ecb ? "1" : "0") + "/" + (eca ? "1" : "0"); }); }
     std::swap(pool[a].m, pool[b].m); std::swap(pool[a].grp, pool[b].grp); role[a] = role[b] = 2; settle("swap", desc); }
   void step_self() { size_t a = pick(); D& x = at(a); D& same = *pool[a].d; int how = (int) t.range(0, 2); std::string desc = std::string(how == 0 ? "self-assignment of #" : how == 1 ? "self m_swap of #" : "self swap of #") + std::to_string(a); c.log << "  " << desc << "\n"; c.tag(nm + (how == 0 ? " self-assign" : " self-swap"));
     if (how == 0) x = same; else if (how == 1) x.m_swap(same); else { using std::swap; swap(x, same); }
